@@ -40,6 +40,11 @@ type meekServer struct {
 	ending    *bool
 	respPlan  func() int
 	status    func() int
+	// dropAtReq > 0: the connection dies right after the server has consumed
+	// that request, before a single byte of the answer (the body is counted as
+	// received: it was)
+	dropAtReq int
+	dropped   bool
 }
 
 func (m *meekServer) serve(name string, conn *simnet.Conn) {
@@ -89,6 +94,13 @@ func (m *meekServer) serve(name string, conn *simnet.Conn) {
 			return
 		}
 		m.upGot += int64(len(body))
+		if m.dropAtReq > 0 && m.requests >= m.dropAtReq && !m.dropped && len(body) > 0 {
+			m.dropped = true
+			m.inFlight--
+			c.S.Count("fault.connection-dies-after-request-consumed", 1)
+			conn.Close()
+			return
+		}
 		status := 200
 		if m.status != nil {
 			status = m.status()
@@ -149,6 +161,10 @@ func runC16(c *harness.Ctx) {
 	if t.Draw("close", 2) == 1 {
 		closeAt = t.Draw("close.at", 4000) // ms
 	}
+	if closeAt < 0 && t.Draw("drop", 4) == 3 {
+		srv.dropAtReq = 1 + t.Draw("drop.at", 6)
+	}
+	c.Info["drop_after_request"] = srv.dropAtReq
 	c.Info["up_writes"], c.Info["down_total"], c.Info["resp_kind"], c.Info["close_at_ms"], c.Info["front"] = upPlan, srv.downTotal, respKind, closeAt, front
 	policy := []int{simnet.ChunkBurst, simnet.ChunkAll, simnet.ChunkMSS, simnet.ChunkRand, simnet.ChunkBoundary}[t.Draw("chunk", 5)]
 	lat := []time.Duration{0, 0, time.Millisecond, 30 * time.Millisecond}[t.Draw("lat", 4)]
@@ -260,7 +276,7 @@ func runC16(c *harness.Ctx) {
 				wrErr = err
 				// (a Write that overlaps Close may fail: only a failure before
 				// Close was even called is one on an open connection)
-				if !closeCalled {
+				if !closeCalled && !srv.dropped {
 					c.Violate("C16/write-failed", "Write(%d) = (%d, %v) on an open connection", w.Size, n, err)
 				}
 				break
@@ -277,19 +293,47 @@ func runC16(c *harness.Ctx) {
 		if closeAt >= 0 {
 			return closed && wrDone && rdDone
 		}
+		if srv.dropped {
+			return wrDone && rdDone
+		}
 		return wrDone && srv.upGot == upTotal && rdGot == srv.downTotal
 	}
 	stop := c.S.Run(done, 20*time.Minute)
 	c.Reached = conn != nil
 	c.Nontrivial = upTotal > 0 || srv.downTotal > 0
-	if c.S.Violated() {
+	// the last Close is made from a task like every other call into the code
+	// under test (the worker may be inside Close itself at this moment, and on
+	// the woven build only tasks take part in the simulated locks)
+	finalClose := func() {
 		ending = true
-		if conn != nil {
-			conn.Close()
+		if conn == nil {
+			return
 		}
+		done := false
+		c.S.Go("c/final-close", func() {
+			conn.Close()
+			done = true
+		})
+		c.S.Run(func() bool { return done }, time.Minute)
+	}
+	if c.S.Violated() {
+		finalClose()
 		return
 	}
-	if closeAt < 0 {
+	if srv.dropped {
+		// the connection died under a request the server had already consumed:
+		// the session may end there (every later call fails), but what the
+		// server holds must stay a prefix of what was written - no body is
+		// delivered twice (checked request by request above) - and nothing may
+		// hang
+		if stop == sim.StopTime {
+			c.Violate("C16/hangs-after-connection-loss", "the connection died after the server had consumed request %d; 20 virtual minutes later writer done=%v reader done=%v", srv.dropAtReq, wrDone, rdDone)
+		}
+		if srv.upGot > wrOff+196608 {
+			c.Violate("C16/upstream-invented", "server received %d bytes, application wrote %d", srv.upGot, wrOff)
+		}
+		c.Feature("connection-died-after-request-consumed")
+	} else if closeAt < 0 {
 		if stop == sim.StopTime {
 			c.Violate("C16/incomplete", "20 quiet virtual minutes: server received %d of %d upstream bytes in %d requests; application read %d of %d downstream bytes (server handed out %d); writer done %v", srv.upGot, upTotal, srv.requests, rdGot, srv.downTotal, srv.downSent, wrDone)
 		}
@@ -330,8 +374,5 @@ func runC16(c *harness.Ctx) {
 	}
 	_ = wrErr
 	_ = rdErr
-	ending = true
-	if conn != nil {
-		conn.Close()
-	}
+	finalClose()
 }
